@@ -216,6 +216,9 @@ func leanTypeM(t types.Type) (string, error) {
 	if lt, ok := k03wType(t); ok { // wp k03w (ext_k03w.go)
 		return lt, nil
 	}
+	if lt, ok := k01dec2Type(t); ok { // wp k01dec2 (ext_k01dec2.go): func(int, int) bool as an abstract predicate
+		return lt, nil
+	}
 	switch u := t.Underlying().(type) {
 	case *types.Basic:
 		if u.Info()&types.IsString != 0 {
@@ -503,6 +506,9 @@ func (fc *fnCtx) mexpr(ex ast.Expr) (string, bool, error) {
 		return s, true, err
 	}
 	if s, handled, err := fc.k03wMexpr(ex); handled { // wp k03w (ext_k03w.go)
+		return s, true, err
+	}
+	if s, handled, err := fc.k01dec2Mexpr(ex); handled { // wp k01dec2 (ext_k01dec2.go): call of a function-valued field
 		return s, true, err
 	}
 	switch x := ex.(type) {
@@ -1224,6 +1230,9 @@ func (fc *fnCtx) mblock(stmts []ast.Stmt, lvl int) (string, error) {
 		return text, err
 	}
 	if text, handled, err := fc.k01decStmt(s, rest, lvl); handled { // wp k01dec (ext_k01dec.go)
+		return text, err
+	}
+	if text, handled, err := fc.k01dec2Stmt(s, rest, lvl); handled { // wp k01dec2 (ext_k01dec2.go)
 		return text, err
 	}
 	switch x := s.(type) {
@@ -3142,6 +3151,7 @@ func genFuncM(p *packages.Package, e entry) (string, error) {
 		}
 	}
 	fc.m.outVars, outTypes = k03wOuts(fc, fd, fc.m.outVars, outTypes) // wp k03w: string parameters are values
+	outTypes = fc.k01dec2MatrixOuts(assigned0, outTypes) // wp k01dec2 (ext_k01dec2.go): a *BitMatrix PARAMETER mutated by Flip / SetRegion is returned
 	if len(fc.m.outVars) > 0 {
 		fc.m.tie = true
 	}
@@ -3504,5 +3514,6 @@ func genRegion(p *packages.Package, e entry) (string, error) {
 		}
 		params = append(params[:sp.at], append(fps, params[sp.at:]...)...)
 	}
+	params = fc.k01dec2RegionFuel(params) // wp k01dec2 (ext_k01dec2.go): a region with a `for cond` loop / fuelled callee takes `(fuel : Nat)`
 	return fc.emit(e.pkg+"."+fname+" (statements "+rng+")", params, body), nil
 }
